@@ -237,7 +237,16 @@ pub fn run_random(rec: &mut Rec, seed: u64, run: u64, nops: usize, multi: bool) 
             }
             30..=59 => p.step(rec, run, step, "claim", ui, 0),
             60..=74 => { let x = gen::amount(&mut r, scale); p.step(rec, run, step, "bond", ui, x) }
-            75..=84 => { let x = gen::amount(&mut r, scale); p.step(rec, run, step, "unbond", ui, x) }
+            75..=84 => {
+                // a third of the unbondings take out everything the address has bonded (it then counts as not bonded,
+                // and a later bond starts its eligibility afresh)
+                let all = {
+                    let b: BondedResponse = p.w.query(&p.hub.lair, &white_whale_std::whale_lair::QueryMsg::Bonded { address: p.users[ui].to_string() }).unwrap();
+                    b.total_bonded.u128()
+                };
+                let x = if all > 0 && r.gen_range(0..3) == 0 { all } else { gen::amount(&mut r, scale) };
+                p.step(rec, run, step, "unbond", ui, x)
+            }
             85..=87 if multi => { let x = r.gen_range(0..2u128); p.step(rec, run, step, "setasset", 0, x) }
             85..=90 => {
                 let ng = match r.gen_range(0..5) { 0 => g.saturating_sub(1), 1 => 31, 2 => 0, _ => g + 1 };
